@@ -131,6 +131,41 @@ class Context(object):
         path.unlink()
         return rejected
 
+    def upstream(self, test_paths, module):
+        """Pipeline U: run the repository's OWN tests (those that run offline) with harness/pytest_tracer.py
+        loaded and return the records they produced for `module` (ids assigned). The outcome of the tests
+        themselves is recorded but never judged here."""
+        import subprocess
+        out = self.work / ('upstream_%s.ndjson' % module)
+        if out.exists():
+            out.unlink()
+        env = dict(os.environ, PHYLIB_TRACE_OUT=str(out),
+                   PYTHONPATH='%s:%s' % (Path(__file__).resolve().parent.parent, REPO))
+        present = [t for t in test_paths if (REPO / t).exists()]
+        recs, tail = [], ''
+        if present:
+            try:
+                pr = subprocess.run([sys.executable, '-m', 'pytest', '-q', '-p', 'no:cacheprovider', '-p',
+                                     'harness.pytest_tracer'] + present, cwd=str(REPO), env=env,
+                                    capture_output=True, text=True, timeout=900)
+                tail = (pr.stdout.strip().splitlines() or [''])[-1][:200]
+            except subprocess.TimeoutExpired:
+                tail = 'timeout'
+        if out.exists():
+            for line in out.read_text().splitlines():
+                try:
+                    doc = json.loads(line)
+                except ValueError:
+                    continue
+                if doc.get('module') == module:
+                    recs.append(doc['rec'])
+            out.unlink()
+        for k, r in enumerate(recs):
+            r['id'] = k + 1
+        self.parts.append(dict(kind='U', module=module, tests=present, records=len(recs), pytest=tail,
+                               note='records of calls made by the repository\'s own tests'))
+        return recs
+
     # -- bookkeeping ----------------------------------------------------------------------
     def violation(self, key, message, case=None):
         if len(self.violations) >= 100:
@@ -161,12 +196,16 @@ class Context(object):
         violation (every property implies its calls terminate), not a hang of the check."""
         def handler(signum, frame):
             raise CodeTimeout()
+        # the limit is on the CPU time of this process (robust against a loaded machine); a generous wall-clock
+        # limit catches a call that blocks without computing
         old = signal.signal(signal.SIGALRM, handler)
-        signal.setitimer(signal.ITIMER_REAL, seconds)
+        oldv = signal.signal(signal.SIGVTALRM, handler)
+        signal.setitimer(signal.ITIMER_REAL, 20 * seconds)
+        signal.setitimer(signal.ITIMER_VIRTUAL, seconds)
         try:
             yield
         except CodeTimeout:
-            self.violation(key, 'the code under test did not return within %ds' % seconds,
+            self.violation(key, 'the code under test did not return within %ds of CPU time' % seconds,
                            dict(case=case, nontermination=True))
             self.abort = True
         except MachineryError:
@@ -178,7 +217,9 @@ class Context(object):
                            dict(case=case, raised=traceback.format_exc()[-1500:]))
         finally:
             signal.setitimer(signal.ITIMER_REAL, 0)
+            signal.setitimer(signal.ITIMER_VIRTUAL, 0)
             signal.signal(signal.SIGALRM, old)
+            signal.signal(signal.SIGVTALRM, oldv)
 
     def cleanup(self):
         shutil.rmtree(self.work, ignore_errors=True)
